@@ -176,7 +176,8 @@ check('C07',
       'spec: freeform layouts with skip words in front of a group (Kept vs WalkKept, ExamplesAreDecl; start line and source lines compared) and '
       'definitions inside except / else / finally / case / if-else / for-else clauses and for bodies. Code -> spec: CollectTrace.tla evaluates '
       'the visitor model on the item lists of real modules (repository; thorough: standard library) against the real collector. '
-      'Package trees: see C17 (package_modpaths).',
+      'GoogleBlocks.tla models the grouping of a google docstring into blocks line by line (replayed into split_google_docblocks / '
+      'parse_google_docstr_examples). Package trees: see C17 (package_modpaths).',
       COLLECT_NOTE, 'TLA+ visitor spec vs declarative inventory (TLC exhaustive), replay of TLC-generated modules into the real collector',
       'DESIGN.md section 5 (C07)', 'collect')
 
@@ -292,6 +293,7 @@ def main():
             {'name': 'modpath', 'path': 'specs/ModPath.tla', 'serves_properties': ['C17', 'C07', 'C12'], 'kind_free_text': 'TLA+ spec of module name/path resolution, split and package walk over directory trees; MC_ModPath.tla; harness/c17.py materialises trees'},
             {'name': 'pathctx', 'path': 'specs/PathCtx.tla', 'serves_properties': ['C12', 'C17'], 'kind_free_text': 'TLA+ spec of PythonPathContext around an import whose module changes sys.path; every behaviour replayed into the real context manager (harness/c12.py)'},
             {'name': 'session', 'path': 'specs/Session.tla', 'serves_properties': ['C10', 'C11', 'C15'], 'kind_free_text': 'TLA+ spec of a process running collected doctests through the native and pytest front ends or in arbitrary histories; harness/sessionlib.py renders by-construction doctests'},
+            {'name': 'googleblocks', 'path': 'specs/GoogleBlocks.tla', 'serves_properties': ['C07'], 'kind_free_text': 'TLA+ spec of the line-by-line grouping of google-style docstrings into blocks and of the one-doctest-per-example-block rule; harness/googlelib.py replays into docscrape_google / core'},
             {'name': 'directive', 'path': 'specs/Directive.tla', 'serves_properties': ['C04'], 'kind_free_text': 'TLA+ spec of directive comments (option syntax, recognition, REQUIRES conditions, effects); MC_Directive.tla alphabets; harness/dirlib.py replays'},
             {'name': 'sessiontrace', 'path': 'specs/SessionTrace.tla', 'serves_properties': ['C10'], 'kind_free_text': 'TLA+ trace specification of the native runner session; validates session events recorded by harness/probe.py from the real runner (harness/tracelib.py)'},
             {'name': 'docruntrace', 'path': 'specs/DocRunTrace.tla', 'serves_properties': ['C02', 'C03', 'C04', 'C09', 'C12'], 'kind_free_text': 'TLA+ trace specification of DocTest.run; validates run-loop events recorded by harness/probe.py (replayed cases, library doctests, repository tests)'},
